@@ -64,32 +64,33 @@ type genCol struct {
 }
 
 type gen struct {
-	r        *rand.Rand
-	p        profile
-	impl     *storeImpl
-	lines    []string
-	feats    map[string]bool
-	rep      *Report
-	cols     []genCol
-	indexes  []string // index name
-	idxOn    map[string]string
-	sorts    []string
-	trigs    []string
-	keyCol   string
-	live     map[uint32]bool
-	keys     []string // key alphabet (hex)
-	hasRep   bool
-	nTxn     int
-	nIdx     int
-	nCol     int
-	cap      int
-	logger   string
-	enumPool []string
-	dead     bool
-	hasVal   map[uint32]map[string]bool // committed values known to the generator
-	txnRes   map[string]bool            // (off|col) that had a possibly resizing merge in the open transaction
-	txnSet   map[string]bool            // (off|col) written in the open transaction
-	everVal  map[string]bool            // (off|col) ever written on the primary
+	r           *rand.Rand
+	p           profile
+	impl        *storeImpl
+	lines       []string
+	feats       map[string]bool
+	rep         *Report
+	cols        []genCol
+	indexes     []string // index name
+	txnRollback bool     // the transaction being generated ends in a rollback
+	idxOn       map[string]string
+	sorts       []string
+	trigs       []string
+	keyCol      string
+	live        map[uint32]bool
+	keys        []string // key alphabet (hex)
+	hasRep      bool
+	nTxn        int
+	nIdx        int
+	nCol        int
+	cap         int
+	logger      string
+	enumPool    []string
+	dead        bool
+	hasVal      map[uint32]map[string]bool // committed values known to the generator
+	txnRes      map[string]bool            // (off|col) that had a possibly resizing merge in the open transaction
+	txnSet      map[string]bool            // (off|col) written in the open transaction
+	everVal     map[string]bool            // (off|col) ever written on the primary
 }
 
 func (g *gen) emit(line string) string {
@@ -693,6 +694,7 @@ func (g *gen) txn() {
 	var insertedOK []uint32
 	hadFail := false
 	rollback := g.p.wRollback > 0 && r.Intn(12) < g.p.wRollback
+	g.txnRollback = rollback
 	for i := 0; i < nops && !g.dead; i++ {
 		x := r.Intn(10)
 		switch {
@@ -825,15 +827,17 @@ func (g *gen) keyOp(tid string, inserted, deleted map[uint32]bool, insertedOK *[
 	}
 	switch {
 	case x < 3:
-		out := g.emit(strings.TrimRight(fmt.Sprintf("p %s inskey %s %s", tid, key, g.actions(r.Intn(3), false)), " ") + g.endsElsewhere())
-		if off, ok := parseOff(out); ok {
+		failing := g.failingKeyed()
+		out := g.emit(strings.TrimRight(fmt.Sprintf("p %s inskey %s %s", tid, key, g.actions(r.Intn(3), false)), " ") + g.endsElsewhere() + failing)
+		if off, ok := parseOff(out); ok && failing == "" {
 			inserted[off] = true
 			*insertedOK = append(*insertedOK, off)
 		}
 		g.feat("inskey")
 	case x < 6:
-		out := g.emit(strings.TrimRight(fmt.Sprintf("p %s upskey %s %s", tid, key, g.actions(1+r.Intn(2), g.p.dirty)), " ") + g.endsElsewhere())
-		if off, ok := parseOff(out); ok {
+		failing := g.failingKeyed()
+		out := g.emit(strings.TrimRight(fmt.Sprintf("p %s upskey %s %s", tid, key, g.actions(1+r.Intn(2), g.p.dirty)), " ") + g.endsElsewhere() + failing)
+		if off, ok := parseOff(out); ok && failing == "" {
 			inserted[off] = true
 			*insertedOK = append(*insertedOK, off)
 		}
@@ -889,6 +893,16 @@ func (g *gen) endsElsewhere() string {
 	if off, ok := g.pickLive(); ok {
 		g.feat("callback-ends-on-another-row")
 		return fmt.Sprintf(" visit:%d", off)
+	}
+	return ""
+}
+
+// failingKeyed: the callback of a keyed insert / upsert fails — like failing plain inserts only in transactions
+// that roll back (a failed insert inside a committing transaction is finding D9) or in the dirty profile
+func (g *gen) failingKeyed() string {
+	if g.p.wFailIns > 0 && g.r.Intn(10) < g.p.wFailIns && (g.p.dirty || g.txnRollback) {
+		g.feat("failing-keyed-callback")
+		return " fail"
 	}
 	return ""
 }
@@ -1106,7 +1120,11 @@ func (g *gen) filteredDelete() {
 	g.emit("p begin " + tid)
 	f := g.filter()
 	nums := g.colsOf(func(c genCol) bool { return isNum(c.kind) })
-	if len(nums) > 0 && g.r.Intn(2) == 0 {
+	if g.r.Intn(3) == 0 {
+		// DeleteAll as the first selection call of its transaction: everything goes
+		g.emit(fmt.Sprintf("p %s select => deleteall", tid))
+		g.feat("unfiltered-deleteall")
+	} else if len(nums) > 0 && g.r.Intn(2) == 0 {
 		g.emit(fmt.Sprintf("p %s select %s => %s:%s", tid, f, []string{"sum", "min", "max", "avg"}[g.r.Intn(4)], nums[g.r.Intn(len(nums))].name))
 		g.emit(fmt.Sprintf("p %s select => deleteall", tid))
 	} else {
@@ -1445,7 +1463,11 @@ func genStoreCase(r *rand.Rand, p profile, rep *Report, id int) Case {
 				g.dumpAll()
 			}
 		case x < 24:
-			switch r.Intn(4) {
+			pick := r.Intn(4)
+			if p.name == "C02" && r.Intn(2) == 0 {
+				pick = 0
+			}
+			switch pick {
 			case 0:
 				g.filteredDelete()
 			case 1:
